@@ -675,46 +675,13 @@ func ruleC01_4(c *Ctx) {
 	p := c.P
 	sread := c.needMethod(pkgCore, "eventloop", "sread")
 	cread := c.needMethod(pkgCore, "eventloop", "cread")
-	put := c.needMethod(pkgCore, "msgPool", "Put")
 	deq := c.needMethod(pkgCore, "conn", "dequeueInMsg")
 	writev := c.needMethod(pkgCore, "conn", "writev")
-	if sread == nil || cread == nil || put == nil || deq == nil || writev == nil {
+	if sread == nil || cread == nil || deq == nil || writev == nil {
 		return
 	}
 	rspBody := p.Field(pkgCore, "Msg", "RspBody")
 	done := p.Field(pkgCore, "Msg", "Done")
-
-	// (a) every MsgPool.Put site recycles either a popped-after-flush message or a locally answered one
-	for _, s := range p.SitesOf(put) {
-		if s.Fn.Synthetic != "" || s.Call == nil {
-			continue
-		}
-		encl := outermost(s.Fn)
-		c.touch(encl)
-		name := "MsgPool.Put in " + shortFn(encl)
-		arg := s.Call.Args[len(s.Call.Args)-1]
-		if _, ok := p.isCallTo(strip(arg), deq); ok {
-			c.ok(name, c.at(s.Instr), "recycles the message just popped from the client queue")
-			continue
-		}
-		if encl == cread {
-			// must be on the out != nil edge of OnCReact's result
-			okGuard := false
-			for _, g := range guardsAt(s.Instr.Block()) {
-				if x, op, y, ok := cmpGuard(g); ok && op == token.NEQ && isNilConst(y) {
-					if ex, ok := x.(*ssa.Extract); ok && ex.Index == 0 {
-						if call, ok := ex.Tuple.(*ssa.Call); ok && call.Call.IsInvoke() && call.Call.Method.Name() == "OnCReact" {
-							okGuard = true
-						}
-					}
-				}
-			}
-			c.check(okGuard, name, c.at(s.Instr), "recycles a request that OnCReact answered locally (out != nil)",
-				"MsgPool.Put(r) in cread is not confined to the out != nil edge: a forwarded request would be recycled while queued and in flight", withGuards(guardsAt(s.Instr.Block())))
-			continue
-		}
-		c.bad(name, c.at(s.Instr), "a Msg is returned to the pool at a site that is neither the post-flush pop nor the local-reply path: it may still be queued or referenced by in-flight fragments, and its next user receives their replies")
-	}
 
 	// (b) collect loop in sread
 	var collect *traversal
